@@ -207,6 +207,47 @@ CHECKS["C15"] = dict(
               "combined with a chi-aware response is accepted with probability 1/2 per guessed Delta bit (known finding, "
               "inherent to the KOS check); PCLMULQDQ semantics trusted; hook ot/verif_export_c15.go.")
 
+CHECKS["C03"] = dict(
+    category="translation_validation", design_ref="DESIGN.md section 2 / C03",
+    technique="Lean 4 reference interpreter (with proved operator/control laws) as oracle + typed program generator + differential validation of the real Compile/Compute",
+    text=("Lean big-step semantics of the MPCL subset (Model/Mpcl.lean) with 37 theorems: every operator is the BitVec operator "
+          "of the declared width (signed division truncates toward zero, signed % is |a| mod |b| as the annotated tests fix, "
+          "arithmetic shift, casts), early-return elimination, loop unrolling, fuel irrelevance, 30 shipped @Test vectors "
+          "and the deviation witnesses evaluated in the model. The real compiler.Compile + circuit.Compute is compared with "
+          "the interpreter on generated programs (exhaustive inputs where the inputs have <= 12..16 bits, else "
+          "boundary-biased), on README/testsuite programs paired with hand-written ASTs, and every shipped @Test vector is "
+          "run through the real compiler."),
+    note=TB + "Partial: the front end is validated per program and input, not proved; no verified back end / SSA-level tie; "
+              "known compiler deviations are probed in tagged classes and matched narrowly; division by zero, constant "
+              "folding (C12), pointers/slices/strings/builtins are outside the grammar.")
+
+CHECKS["C08"] = dict(
+    category="other", design_ref="DESIGN.md section 2 / C08",
+    technique="Lean 4 permutation-invariance / history-independence obligations per map-range site + go/types structural facts + executable-model correspondence + cross-instance, cross-process differential oracle",
+    text=("Every `range` over a map in the compile path is extracted from the source with go/types and must match a table that "
+          "names its Lean obligation: an invariance theorem (forall permutations, under a hypothesis the harness re-checks "
+          "on every compiled program) or a refutation witness. Package-level variables and the state a Compiler keeps "
+          "between compilations are pinned the same way. The oracle compiles a corpus (examples, testsuite, generated "
+          "multi-package programs) repeatedly on one Compiler, on fresh instances, in 6-8 child processes and on a "
+          "long-lived Compiler after other programs, comparing Circuit.Marshal bytes and SSA listings, classifying every "
+          "difference and tolerating only the recorded defect classes."),
+    note=TB + "Go's map randomisation and scheduling are runtime behaviour a Lean model cannot exhibit: absence of order "
+              "dependence outside enumerated map sites is observed, not proved; sort.Slice assumed to return a sorted permutation.")
+
+CHECKS["C14"] = dict(
+    category="proof", design_ref="DESIGN.md section 2 / C14",
+    technique="Lean 4 theorems about an executable byte-level format model (reader = byte list + read-size oracle) + differential correspondence and mutation fuzz against the Go parsers",
+    text=("Every circuit ParseMPCLC/ParseBristol return is defined-before-use with all wires assigned (all inputs, all reader "
+          "behaviours); no index of either parser is out of range; the parsers are total (ok | error); type-text, Bristol "
+          "and native round trips (same gates, counts, signature, same function, identical bytes on re-marshal). Where the "
+          "pinned code failed (extra gate records panicked; strings crossing the 4 KiB bufio buffer were truncated) the "
+          "negation witnesses are proved about the old variant and the defects are repaired by fix: commits. The model is "
+          "tied to /repo by byte-exact marshal and full-dump parse comparison on generated circuits and thousands of "
+          "mutated files per run (truncate, extend, bit flips, field splices), each parser call under recover in a child "
+          "process with deadline and address-space limit."),
+    note=TB + "Declared sizes > 10^6 are out of scope (as the property states); Go hang-freedom is tested, not proved; Stats, "
+              "Gate.Level and MinBits are not carried by either format.")
+
 NOT_YET = {}
 
 PROPS = [json.loads(l)["id"] for l in open(os.path.join(VERIF, "properties.jsonl"))]
